@@ -223,6 +223,22 @@ def side_tests(model, res):
                 res.evaluations += 1
                 side = {a[-1] for a in comps}
                 kinds = {a[0] for a in comps}
+                # ... and value equality of (p, rho, u) cannot tell the sides apart when they differ in gamma only
+                gam = any(isinstance(c, _ast.Compare) and len(c.ops) == 1 and isinstance(c.ops[0], _ast.Eq)
+                          and isinstance(c.comparators[0], _ast.Attribute) and c.comparators[0].attr in ('gl', 'gr')
+                          for c in _ast.walk(st.test))
+                res.obligations += 1
+                res.evaluations += 1
+                if gam:
+                    res.discharged += 1
+                else:
+                    res.add(Finding(PROP, 'C09.side-test', fi.module.relpath, fi.qualname,
+                                    '%s: side inferred from (p, rho, u) only' % fi.name,
+                                    "%s infers which side a state belongs to from value equality of pressure, density and velocity with "
+                                    "the stored left state.  The two sides may differ in the adiabatic index alone (documented as "
+                                    "allowed): the right state is then taken for the left one, its wave gets the sign of the other family "
+                                    "and the solution is neither the exact one nor mirror-symmetric" % fi.name,
+                                    line=st.lineno, construct=src_of_call(st.test)))
                 if len(side) == 1 and kinds == {'p', 'r', 'u'}:
                     res.discharged += 1
                 else:
